@@ -968,8 +968,6 @@ def getitem_any(interp, obj, key):
         return obj[key]
     if isinstance(obj, Sym) and (key == () or key is Ellipsis):
         return obj                  # x[()] / x[...] of a 0-d value (what NumPy scalars and 0-d arrays allow)
-    if isinstance(obj, Sym):
-        raise OutsideSubset("subscript %r of a symbolic scalar" % (key,))
     if not interp.concrete and _typhon_dunder(obj, "__getitem__") is not None:
         return interp.call_value(_typhon_dunder(obj, "__getitem__"), [obj, key], {}, None)
     if hasattr(obj, "__pyvc_getitem__"):
